@@ -67,6 +67,8 @@ static std::vector<std::size_t> sizes(std::vector<std::string> const& v) { std::
 static std::string hx(double x) { char b[64]; std::snprintf(b, sizeof b, "%a", x); return b; }
 static std::string hv(RealVector const& v) { std::string s; for (std::size_t i = 0; i != v.size(); ++i) { if (i) s += ","; s += hx(v(i)); } return s.empty() ? "-" : s; }
 static std::string hm(RealMatrix const& m) { std::string s; for (std::size_t i = 0; i != m.size1(); ++i) for (std::size_t j = 0; j != m.size2(); ++j) { if (i + j) s += ","; s += hx(m(i, j)); } return s.empty() ? "-" : s; }
+static std::string hv(FloatVector const& v) { std::string s; for (std::size_t i = 0; i != v.size(); ++i) { if (i) s += ","; s += hx(v(i)); } return s.empty() ? "-" : s; }
+static std::string hm(FloatMatrix const& m) { std::string s; for (std::size_t i = 0; i != m.size1(); ++i) for (std::size_t j = 0; j != m.size2(); ++j) { if (i + j) s += ","; s += hx(m(i, j)); } return s.empty() ? "-" : s; }
 static std::string hm(UIntVector const&) { return "-"; }
 static std::string hv(unsigned int) { return "-"; }
 
@@ -81,9 +83,10 @@ static std::string safeJob(Job const& j) {
 static bool g_collect = false;          // ctx mode: handle() builds the instances, hands them over and stops
 static std::vector<Job> g_jobs;
 struct CollectDone {};
+static std::shared_ptr<void> g_keep;      // objects shared by the jobs of the current line that handle() would destroy
 static void ctxHook(std::vector<Job> const& jobs) { g_jobs = jobs; throw CollectDone(); }
 
-struct CtxItem { std::string kind; bool has; std::vector<Job> jobs; std::string cs, o2, o3; std::vector<std::string> a2, a3; };
+struct CtxItem { std::string kind; bool has; std::vector<Job> jobs; std::shared_ptr<void> keep; std::string cs, o2, o3; std::vector<std::string> a2, a3; };
 static void ctxChunk(std::vector<CtxItem>& items, unsigned chunkIndex, std::ostream& out) {
 	int teams[4] = {0, 0, 0, 0};
 	omp_set_num_threads(1);
@@ -123,6 +126,7 @@ static void ctxChunk(std::vector<CtxItem>& items, unsigned chunkIndex, std::ostr
 }
 
 static RealMatrix mat(DV const& v, std::size_t n, std::size_t d) { RealMatrix m(n, d); for (std::size_t i = 0; i != n; ++i) for (std::size_t j = 0; j != d; ++j) m(i, j) = v[i * d + j]; return m; }
+static FloatMatrix fmat(DV const& v, std::size_t n, std::size_t d) { FloatMatrix m(n, d); for (std::size_t i = 0; i != n; ++i) for (std::size_t j = 0; j != d; ++j) m(i, j) = (float)v[i * d + j]; return m; }
 static UIntVector uvec(DV const& v) { UIntVector u(v.size()); for (std::size_t i = 0; i != v.size(); ++i) u(i) = (unsigned int)v[i]; return u; }
 static std::vector<RealVector> rows(DV const& v, std::size_t n, std::size_t d) { std::vector<RealVector> r; for (std::size_t i = 0; i != n; ++i) { RealVector x(d); for (std::size_t j = 0; j != d; ++j) x(j) = v[i * d + j]; r.push_back(x); } return r; }
 static std::vector<unsigned int> uints(DV const& v) { std::vector<unsigned int> r; for (double x : v) r.push_back((unsigned int)x); return r; }
@@ -155,6 +159,8 @@ struct LossBox {   // owns one loss object of either label family
 	std::unique_ptr<AbstractLoss<RealVector, RealVector> > vv;
 	std::unique_ptr<AbstractLoss<unsigned int, RealVector> > cv;
 	std::unique_ptr<AbstractLoss<unsigned int, unsigned int> > cc;
+	std::unique_ptr<AbstractLoss<unsigned int, FloatVector> > cf;      // single-precision variants (L lines only)
+	std::unique_ptr<AbstractLoss<FloatVector, FloatVector> > ff;
 	bool deriv;
 };
 static LossBox makeLoss(std::string const& name, double param, DV const& cost) {
@@ -169,6 +175,8 @@ static LossBox makeLoss(std::string const& name, double param, DV const& cost) {
 	else if (name == "hinge") b.cv.reset(new HingeLoss());
 	else if (name == "sqhinge") b.cv.reset(new SquaredHingeLoss());
 	else if (name == "ce") b.cv.reset(new CrossEntropy<unsigned int, RealVector>());
+	else if (name == "cef") b.cf.reset(new CrossEntropy<unsigned int, FloatVector>());
+	else if (name == "cevf") b.ff.reset(new CrossEntropy<FloatVector, FloatVector>());
 	else if (name == "zov") { b.cv.reset(new ZeroOneLoss<unsigned int, RealVector>(param)); b.deriv = false; }
 	else if (name == "zo") { b.cc.reset(new ZeroOneLoss<unsigned int, unsigned int>()); b.deriv = false; }
 	else if (name == "disc") { std::size_t k = (std::size_t)param; b.cc.reset(new DiscreteLoss(mat(cost, k, k))); b.deriv = false; }
@@ -361,14 +369,16 @@ static std::string handle(std::string const& line) {
 		auto sz = sizes(s[1]); DV labs = nums(s[2]), preds = nums(s[3]), w = nums(s[4]);
 		ZeroOneLoss<unsigned int, RealVector> zl(param);
 		RealVector wv(w.size()); for (std::size_t i = 0; i != w.size(); ++i) wv(i) = w[i];
+		if (g_collect) {
+			std::vector<Job> jobs;
+			for (int t = 0; t != 3; ++t) {
+				Data<unsigned int> dl = mkData(uints(labs), sz); Data<RealVector> dp = mkData(rows(preds, labs.size(), dim), sz);
+				jobs.push_back([param, dl, dp, wv]() { ZeroOneLoss<unsigned int, RealVector> l(param); return hx(l.eval(dl, dp, wv)); });
+			}
+			ctxHook(jobs);
+		}
 		double z = zl.eval(mkData(uints(labs), sz), mkData(rows(preds, labs.size(), dim), sz), wv);
 		o << "z=" << hx(z);
-		std::vector<Job> jobs;
-		for (int t = 0; t != 3; ++t) {
-			Data<unsigned int> dl = mkData(uints(labs), sz); Data<RealVector> dp = mkData(rows(preds, labs.size(), dim), sz);
-			jobs.push_back([param, dl, dp, wv]() { ZeroOneLoss<unsigned int, RealVector> l(param); return hx(l.eval(dl, dp, wv)); });
-		}
-		o << ctxStage(jobs, pickOf(line));
 		return o.str();
 	}
 	if (kind == 'L' || kind == 'M') {
@@ -377,27 +387,32 @@ static std::string handle(std::string const& line) {
 		std::size_t off = (kind == 'M') ? 2 : 1;
 		DV labs = nums(s[off]), preds = nums(s[off + 1]);
 		DV cost; if (s.size() > off + 2) cost = nums(s[off + 2]);
-		LossBox b = makeLoss(name, param, cost);
+		std::shared_ptr<LossBox> bp(new LossBox(makeLoss(name, param, cost))); LossBox& b = *bp;
+		if (g_collect) g_keep = bp;      // the loss object shared by the jobs must outlive handle()
 		if (kind == 'L') {
 			if (b.vv) { std::size_t n = preds.size() / dim; o << runLoss(*b.vv, mat(labs, n, dim), mat(preds, n, dim), b.deriv); }
 			else if (b.cv) { std::size_t n = labs.size(); o << runLoss(*b.cv, uvec(labs), mat(preds, n, dim), b.deriv); }
+			else if (b.cf) { std::size_t n = labs.size(); o << runLoss(*b.cf, uvec(labs), fmat(preds, n, dim), b.deriv); }
+			else if (b.ff) { std::size_t n = preds.size() / dim; o << runLoss(*b.ff, fmat(labs, n, dim), fmat(preds, n, dim), b.deriv); }
 			else o << runLoss(*b.cc, uvec(labs), uvec(preds), false);
 		} else {
+			if (!b.vv && !b.cv && !b.cc) throw std::runtime_error("loss only available on L lines");
 			omp_set_num_threads((int)T);
 			auto sz = sizes(s[1]);
-			double m;
-			std::vector<Job> jobs;      // calling-context stage: every instance has its own data set objects, the loss object is shared
-			if (b.vv) {
-				std::size_t n = preds.size() / dim; m = b.vv->eval(mkData(rows(labs, n, dim), sz), mkData(rows(preds, n, dim), sz));
-				for (int t = 0; t != 3; ++t) { Data<RealVector> dl = mkData(rows(labs, n, dim), sz), dp = mkData(rows(preds, n, dim), sz); auto* lp = b.vv.get(); jobs.push_back([lp, dl, dp]() { return hx(lp->eval(dl, dp)); }); }
-			} else if (b.cv) {
-				std::size_t n = labs.size(); m = b.cv->eval(mkData(uints(labs), sz), mkData(rows(preds, n, dim), sz));
-				for (int t = 0; t != 3; ++t) { Data<unsigned int> dl = mkData(uints(labs), sz); Data<RealVector> dp = mkData(rows(preds, n, dim), sz); auto* lp = b.cv.get(); jobs.push_back([lp, dl, dp]() { return hx(lp->eval(dl, dp)); }); }
-			} else {
-				m = b.cc->eval(mkData(uints(labs), sz), mkData(uints(preds), sz));
-				for (int t = 0; t != 3; ++t) { Data<unsigned int> dl = mkData(uints(labs), sz), dp = mkData(uints(preds), sz); auto* lp = b.cc.get(); jobs.push_back([lp, dl, dp]() { return hx(lp->eval(dl, dp)); }); }
+			if (g_collect) {      // calling-context stage: every instance has its own data set objects, the loss object is shared
+				std::vector<Job> jobs;
+				for (int t = 0; t != 3; ++t) {
+					if (b.vv) { std::size_t n = preds.size() / dim; Data<RealVector> dl = mkData(rows(labs, n, dim), sz), dp = mkData(rows(preds, n, dim), sz); auto* lp = b.vv.get(); jobs.push_back([lp, dl, dp]() { return hx(lp->eval(dl, dp)); }); }
+					else if (b.cv) { std::size_t n = labs.size(); Data<unsigned int> dl = mkData(uints(labs), sz); Data<RealVector> dp = mkData(rows(preds, n, dim), sz); auto* lp = b.cv.get(); jobs.push_back([lp, dl, dp]() { return hx(lp->eval(dl, dp)); }); }
+					else { Data<unsigned int> dl = mkData(uints(labs), sz), dp = mkData(uints(preds), sz); auto* lp = b.cc.get(); jobs.push_back([lp, dl, dp]() { return hx(lp->eval(dl, dp)); }); }
+				}
+				ctxHook(jobs);
 			}
-			o << "m=" << hx(m) << ctxStage(jobs, pickOf(line));
+			double m;
+			if (b.vv) { std::size_t n = preds.size() / dim; m = b.vv->eval(mkData(rows(labs, n, dim), sz), mkData(rows(preds, n, dim), sz)); }
+			else if (b.cv) { std::size_t n = labs.size(); m = b.cv->eval(mkData(uints(labs), sz), mkData(rows(preds, n, dim), sz)); }
+			else m = b.cc->eval(mkData(uints(labs), sz), mkData(uints(preds), sz));
+			o << "m=" << hx(m);
 		}
 		return o.str();
 	}
@@ -413,7 +428,8 @@ static std::string handle(std::string const& line) {
 		auto sz = sizes(s[1]); DV params = nums(s[2]), in = nums(s[3]), labs = nums(s[4]);
 		DV extra; if (s.size() > 5) extra = nums(s[5]);
 		if (kind != 'B') omp_set_num_threads((int)T);
-		LossBox b = makeLoss(name, param, DV());
+		std::shared_ptr<LossBox> bp(new LossBox(makeLoss(name, param, DV()))); LossBox& b = *bp;
+		if (g_collect) g_keep = bp;
 		std::size_t n = in.size() / nin;
 		DV weights = (kind == 'W' || kind == 'F') ? extra : DV();
 		DV mask = kind == 'R' ? extra : DV();
@@ -426,7 +442,8 @@ static std::string handle(std::string const& line) {
 		std::size_t T = std::stoul(s[0][3]), nin = std::stoul(s[0][4]), nh = std::stoul(s[0][5]), nout = std::stoul(s[0][6]);
 		auto sz = sizes(s[1]); DV params = nums(s[2]), in = nums(s[3]), labs = nums(s[4]);
 		omp_set_num_threads((int)T);
-		LossBox b = makeLoss(name, param, DV());
+		std::shared_ptr<LossBox> bp(new LossBox(makeLoss(name, param, DV()))); LossBox& b = *bp;
+		if (g_collect) g_keep = bp;
 		std::size_t n = in.size() / nin;
 		Net2Holder h(nin, nh, nout);
 		if (b.vv) o << runEF<RealVector>(kind, *b.vv, rows(in, n, nin), rows(labs, n, labs.size() / (n ? n : 1)), sz, params, nin, nout, DV(), "", 0, DV(), "net2", false, 0, &h.net, nh);
@@ -465,19 +482,21 @@ static std::string handle(std::string const& line) {
 		RealVector p(params.size()); for (std::size_t i = 0; i != params.size(); ++i) p(i) = params[i];
 		if (p.size() != model.numberOfParameters()) throw std::runtime_error("parameter count");
 		UnlabeledData<RealVector> data = mkData(rows(in, in.size() / nin, nin), sz);
+		if (g_collect) {
+			struct PInst { LinearModel<> model; UnlabeledData<RealVector> data; std::unique_ptr<NegativeLogLikelihood> nll; PInst(std::size_t nin) : model(nin, 1, true) {} };
+			std::vector<Job> jobs;
+			for (int t = 0; t != 3; ++t) {
+				std::shared_ptr<PInst> I(new PInst(nin));
+				I->data = mkData(rows(in, in.size() / nin, nin), sz);
+				I->nll.reset(new NegativeLogLikelihood(I->data, &I->model));
+				jobs.push_back([I, p]() { double v = I->nll->eval(p); RealVector g; double dv = I->nll->evalDerivative(p, g); return hx(v) + ":" + hx(dv) + ":" + hv(g); });
+			}
+			ctxHook(jobs);
+		}
 		NegativeLogLikelihood nll(data, &model);
 		double v = nll.eval(p);
 		RealVector g; double dv = nll.evalDerivative(p, g);
 		o << "v=" << hx(v) << " dv=" << hx(dv) << " g=" << hv(g);
-		struct PInst { LinearModel<> model; UnlabeledData<RealVector> data; std::unique_ptr<NegativeLogLikelihood> nll; PInst(std::size_t nin) : model(nin, 1, true) {} };
-		std::vector<Job> jobs;
-		for (int t = 0; t != 3; ++t) {
-			std::shared_ptr<PInst> I(new PInst(nin));
-			I->data = mkData(rows(in, in.size() / nin, nin), sz);
-			I->nll.reset(new NegativeLogLikelihood(I->data, &I->model));
-			jobs.push_back([I, p]() { double v = I->nll->eval(p); RealVector g; double dv = I->nll->evalDerivative(p, g); return hx(v) + ":" + hx(dv) + ":" + hv(g); });
-		}
-		o << ctxStage(jobs, pickOf(line));
 		return o.str();
 	}
 	if (kind == 'A') {   // A invert T [dim] | sizes | labels | scores (n*dim numbers) : NegativeAUC on dim-column predictions (default 1)
@@ -485,16 +504,19 @@ static std::string handle(std::string const& line) {
 		std::size_t dim = s[0].size() > 3 ? std::stoul(s[0][3]) : 1;
 		auto sz = sizes(s[1]); DV labs = nums(s[2]), sc = nums(s[3]);
 		NegativeAUC<unsigned int, RealVector> auc(inv);
+		if (g_collect) {
+			std::vector<Job> jobs;
+			for (int t = 0; t != 3; ++t) {
+				Data<unsigned int> dl; Data<RealVector> dp;
+				if (!labs.empty()) { dl = mkData(uints(labs), sz); dp = mkData(rows(sc, labs.size(), dim), sz); }
+				jobs.push_back([inv, dl, dp]() { NegativeAUC<unsigned int, RealVector> l(inv); return hx(l.eval(dl, dp)); });
+			}
+			ctxHook(jobs);
+		}
 		// an empty data set cannot be built with createDataFromRange: hand over default-constructed containers
 		double a = labs.empty() ? auc.eval(Data<unsigned int>(), Data<RealVector>())
 		                        : auc.eval(mkData(uints(labs), sz), mkData(rows(sc, labs.size(), dim), sz));
 		o << "a=" << hx(a);
-		std::vector<Job> jobs;
-		for (int t = 0; t != 3; ++t) {
-			Data<unsigned int> dl = mkData(uints(labs), sz); Data<RealVector> dp = mkData(rows(sc, labs.size(), dim), sz);
-			jobs.push_back([inv, dl, dp]() { NegativeAUC<unsigned int, RealVector> l(inv); return hx(l.eval(dl, dp)); });
-		}
-		o << ctxStage(jobs, pickOf(line));
 		return o.str();
 	}
 	return "?";
@@ -504,8 +526,30 @@ int main(int argc, char** argv) {
 	if (argc < 2) return 2;
 	omp_set_dynamic(0);                 // team sizes as requested (num_threads clause / omp_set_num_threads), whatever OMP_DYNAMIC says
 	omp_set_max_active_levels(1);       // nested parallelism off (the default): the library's loop inside a region runs on one thread
-	std::ifstream f(argv[1]);
+	bool ctx = argc >= 4 && std::string(argv[1]) == "ctx";
+	std::ifstream f(argv[ctx ? 3 : 1]);
 	std::string line;
+	if (ctx) {
+		std::size_t chunk = std::max<std::size_t>(1, std::stoul(argv[2]));
+		std::vector<CtxItem> items; unsigned ci = 0;
+		g_collect = true;
+		bool more = true;
+		while (more) {
+			more = (bool)std::getline(f, line);
+			if (more) {
+				CtxItem it; it.kind = std::string(1, line.empty() ? '?' : line[0]); it.has = false;
+				if (!line.empty() && std::string("EWRBFNMPZA").find(line[0]) != std::string::npos) {
+					g_jobs.clear(); g_keep.reset();
+					try { handle(line); }
+					catch (CollectDone const&) { it.has = true; it.jobs = g_jobs; it.keep = g_keep; }
+					catch (...) {}      // the line fails before anything is evaluated (reported by the normal pass)
+				}
+				items.push_back(it);
+			}
+			if (items.size() >= chunk || (!more && !items.empty())) { ctxChunk(items, ci++, std::cout); items.clear(); }
+		}
+		return 0;
+	}
 	while (std::getline(f, line)) {
 		std::string out;
 		try { out = handle(line); }
